@@ -360,6 +360,7 @@ func History(p *Profile, seed int64) []Op {
 			op := Op{Op: kind, Specs: specs}
 			if kind == "many" && m > 0 && r.Intn(100) < 8 {
 				op.Wrong = r.Intn(m) + 1
+				op.WrongU = r.Intn(2) == 0
 			}
 			if kind == "bulk" {
 				op.CS = []int{1, 2, 3, m, m + 1, 0, 5}[r.Intn(7)]
